@@ -49,6 +49,13 @@ class SeqProp:
         """independent judge of the *property* on the implementation's outputs: None if fine, else a description"""
         return None
 
+    def extra_scenarios(self, rng, tier):
+        return []
+
+    def run_extra(self, desc):
+        """runs one oracle-only scenario on the real code: None if the property held, else a description"""
+        return None
+
     def key(self, case: Case, impl_out):
         """key for counting distinct non-trivial cases (None = trivial)"""
         return hash(tuple(case.ops))
@@ -157,6 +164,19 @@ class SeqProp:
                 elif kind != "PO" and mo_mismatch is None:
                     mo_mismatch = (c, i)
 
+        # scenarios beyond the model's vocabulary (e.g. an operation of another process placed *inside* an operation):
+        # executed on the real code and judged by the oracle only
+        extra_fail = None
+        n_extra = 0
+        for desc in self.extra_scenarios(rng, tier):
+            n_extra += 1
+            report.evaluations += 1
+            report.count("extra:" + str(desc.get("kind", "scenario")))
+            d = self.run_extra(desc)
+            if d is not None and extra_fail is None:
+                extra_fail = (desc, d)
+        report.extra["oracle_only_scenarios"] = n_extra
+
         violations = 0
         lines = []
 
@@ -172,7 +192,10 @@ class SeqProp:
             tail = " no-failing-input-found" if f.kind != "property" else ""
             lines.append(f"VIOLATION property={self.pid} replay={path}{tail}")
 
-        if prop_fail is not None:
+        if extra_fail is not None and prop_fail is None:
+            desc, d = extra_fail
+            emit(Finding("property", Case([], desc, "oracle-only scenario"), d, signature=None))
+        elif prop_fail is not None:
             c, detail = prop_fail
             small = self.shrink(c, lambda cc, m, i: self.oracle(cc, i) is not None)
             io = self.safe_impl(small)
